@@ -158,7 +158,8 @@ def h_discovery(ctx, cfg):
         progs.build(p)
     f = p.objs['f']
     try:
-        R = sigtools.signature(f)
+        with sym.concrete():
+            R = sigtools.signature(f)
     except Exception as e:
         ctx.count('retrieval-raised')
         return
